@@ -6,8 +6,8 @@ Import ListNotations.
 Open Scope Z_scope.
 
 (* (receiver side, key value, key id, ciphertext, observed result) *)
-Definition case := (Z * list Z * list Z * list Z * obs_dec_t)%type.
+Definition case := (Z * packed * packed * packed * obs_dec_p)%type.
 Definition ok (c : case) : bool :=
   let '(sd, kv, kid, ct, o) := c in
-  obs_dec_eqb (obs_dec (x_decrypt (side_of sd) {| ak_value := kv; ak_id := kid |} ct)) o.
+  obs_dec_eqb (obs_dec (x_decrypt (side_of sd) {| ak_value := unpack kv; ak_id := unpack kid |} (unpack ct))) (unpack_obs_dec o).
 Definition mismatches (cs : list case) : list nat := mismatch_idx ok cs.
